@@ -188,6 +188,30 @@ Vecs == SetToSeq({{[ops |-> o, src |-> s, exp |-> Run(o, s)] : o \\in {{x \\in O
                         break
             if len(rep.violations) >= 30:
                 break
+        # values whose octets overlap: the four octets of u also occur, unaligned, across two neighbouring earlier identifiers
+        if len(rep.violations) < 30:
+            for t, (v1, v2) in enumerate(((b"\x11\xaa\xbb\xcc", b"\xdd\x22\x33\x44"), (b"\x0d\x00\x00\x01", b"\x00\x00\x00\x0d"), (b"\x7e\x7e\x7e\x7e", b"\x7e\x01\x02\x03"))):
+                for off in (1, 2, 3):
+                    u = (v1 + v2)[off:off + 4]
+                    tag = bytes([0x0E, t, off])
+                    w = [tag + bytes([i]) for i in range(8)]                      # End-to-End values of this history (all different)
+                    f1, f2 = bytes([0x0F, t, off, 1]), bytes([0x0F, t, off, 2])
+                    # draws: hbh, e2e alternately; request 4 is offered u again for its Hop-by-Hop (must be redrawn: f1)
+                    src.script = [v1, w[0], v2, w[1], u, w[2], u, f1, w[3], f2, w[4]]
+                    made = []
+                    try:
+                        for i in range(4):
+                            made.append(make("req", 3 * i, byname, rng, reqs))
+                    except BaseException as ex:
+                        rep.violation(f"creating requests from the overlapping values {v1.hex()} {v2.hex()} {u.hex()} raised {type(ex).__name__}: {ex}", {"kind": "overlap", "t": t, "off": off})
+                        break
+                    rep.case(("overlap", t, off))
+                    hs = [m.header.hop_by_hop for m in made]
+                    es = [m.header.end_to_end for m in made]
+                    if len(set(hs)) != len(hs) or len(set(es)) != len(es):
+                        rep.violation(f"four requests created in a row carry Hop-by-Hop {[h.hex() for h in hs]} / End-to-End {[e.hex() for e in es]}: the random source offered "
+                                      f"{u.hex()} twice (its octets also occur across {v1.hex()} {v2.hex()}, handed out before)", {"kind": "overlap", "t": t, "off": off})
+                        break
         # a long history: a value handed out more than a thousand requests ago is still taken
         if len(rep.violations) < 30:
             nlong = 1100
@@ -257,7 +281,9 @@ def run_concurrent(seed, nthreads, script_vals, opcode, kinds=("generic",)):
     TracedList.log = tl_log
     hb, ee = TracedList(), TracedList()
     hb.name, ee.name = "hbh", "e2e"
-    DiameterRequest.hop_by_hop_identifiers, DiameterRequest.end_to_end_identifiers = hb, ee
+    if isinstance(DiameterRequest.hop_by_hop_identifiers, list) and isinstance(DiameterRequest.end_to_end_identifiers, list):
+        DiameterRequest.hop_by_hop_identifiers, DiameterRequest.end_to_end_identifiers = hb, ee
+    # (registries of another representation are left as they are: the execution is judged by its results only)
     lock = getattr(DiameterRequest, "identifiers_lock", None)
     for attr, val in list(vars(DiameterRequest).items()):
         if type(val).__name__ in ("lock", "RLock") or isinstance(val, vsched.VLock):
@@ -456,7 +482,7 @@ def run(rep):
 def replay(rep, path):
     r = json.load(open(path))["replay"]
     byname = dictx.by_name()
-    if r["kind"] in ("sequential", "long-history"):
+    if r["kind"] in ("sequential", "long-history", "overlap"):
         rep.notes["replay"] = "sequential histories are re-enumerated"
         check_sequential(rep, byname)
     else:
